@@ -295,7 +295,7 @@ func newEnc(prog *ssa.Program, fn *ssa.Function, db *ContractDB) *Enc {
 	return &Enc{prog: prog, fn: fn, db: db, con: db.byFunc[fname(fn)], declared: map[string]bool{},
 		vals: map[ssa.Value]*Val{}, locs: map[ssa.Value]*Loc{}, endState: map[*ssa.BasicBlock]State{},
 		reach: map[*ssa.BasicBlock]string{}, kindN: map[string]int{}, tags: map[string]int{},
-		params: map[string]*Val{}, effects: map[*ssa.Function]*effect{}, ranges: map[*ssa.Range]*rangeInfo{}, freeRef: map[string]*Val{}, merges: map[int]*mergeInfo{}, preserved: map[int]*preserveInfo{}, pendingFrame: map[string]string{}, pendingOld: map[string]string{}, birth: map[string][2]string{}, dyn: map[ssa.Value]types.Type{}, ghostSites: map[string]bool{}, siteResults: map[string]*Val{}, lastOrd: map[string]int{}}
+		params: map[string]*Val{}, effects: map[*ssa.Function]*effect{}, ranges: map[*ssa.Range]*rangeInfo{}, freeRef: map[string]*Val{}, merges: map[int]*mergeInfo{}, preserved: map[int]*preserveInfo{}, pendingFrame: map[string]string{}, pendingOld: map[string]string{}, birth: map[string][2]string{}, assertHit: map[int]bool{}, dyn: map[ssa.Value]types.Type{}, ghostSites: map[string]bool{}, siteResults: map[string]*Val{}, lastOrd: map[string]int{}}
 }
 
 var reachedRe = regexp.MustCompile(`reached\("([^"]+)"\)`)
@@ -458,6 +458,20 @@ func (e *Enc) run() {
 	}
 	for _, b := range order {
 		e.block(b)
+	}
+	// every call-site / store-site clause must have found its site (a renamed callee or a removed call is an alarm,
+	// not a silently skipped obligation)
+	if e.con != nil {
+		for ai, a := range e.con.Asserts {
+			if e.assertHit[ai] || !e.active(a.C) {
+				continue
+			}
+			e.curBlock = e.fn.Blocks[0]
+			o := e.oblige("assert", fmt.Sprintf("@site-missing:%s#%d:%s", a.Callee, a.Ordinal, shorten(a.C.Src)), e.fn.Pos(), "false")
+			o.Owned = true
+			o.Clause = a.C
+			e.cons = e.cons[:len(e.cons)-1]
+		}
 	}
 	// a `pure` claim is checked against the inferred write set of the body
 	if e.con != nil && e.con.Pure {
